@@ -262,7 +262,9 @@ def doBucket (a : Json) : Except String Json := do
           | some m => if c.1.1 < m then m else c.1.1
         (some t, acc.2 ++ [(t, if c.2 then c.1.2 else 0)])) (none, [])
       J.bool (windowsOk qps burst ((1 : Rat) / 1000) events)
-  pure <| J.obj [("ok", Json.arr (oks.map J.bool).toArray), ("windows", judge), ("tight", J.nat tight)]
+  pure <| J.obj [("ok", Json.arr (oks.map J.bool).toArray), ("windows", judge), ("tight", J.nat tight),
+    -- can the real TryAcquireN hand the limiter a stale clock reading? (regenerated shape fact)
+    ("staleReachable", J.bool (!KG.Gen.C08.tryAcquireSerialized))]
 
 /-- all interleavings of the threads' op lists (each a list of `(thread, op)`), fuel = total length -/
 def interleavings : Nat → List (List SOp) → List (List (Nat × SOp))
